@@ -98,7 +98,7 @@ Definition head_id (h : head) : N :=
   | HNoOp => 1 | HBytes => 2 | HNoneType => 3 | HString => 4 | HNumber => 5 | HDate => 6
   | HDateTime => 7 | HTime => 8 | HTimeDelta => 9 | HPattern => 10 | HUUID => 11 | HCast => 12
   | HSubMapping => 13 | HSubIterable => 14 | HSubIterator => 15 | HFixedTuple => 16
-  | HStructured => 17 | HLiteral _ => 18 | HUnion _ => 19 end%N.
+  | HStructured => 17 | HLiteral _ => 18 | HUnion _ => 19 | HPath => 20 | HEnum => 21 end%N.
 Definition rtab := list (N * pv * res pv).
 Fixpoint rlookup (t : rtab) (i : N) (d : pv) : res pv :=
   match t with
